@@ -214,11 +214,12 @@ Section Build.
       cbn. intros ft' H. inversion H; subst. exact E2.
   Qed.
 
-  (* every exit other than an interrupt between swap and restore leaves the grammar as it
-     was (up to the FIRST cache), and the result does not depend on the cache *)
+  (* every exit -- normal, GrammarError before the swap, an exception while the item sets
+     are computed (restored by the finally clause) -- leaves the grammar as it was up to
+     the FIRST cache, and the result does not depend on the cache *)
   Lemma create_table_inv aug0 gs o : ginv aug0 gs ->
     snd (create gs o) = snd (create (mkG aug0 None) o) /\
-    (snd (create gs o) <> Raise XInterrupted -> ginv aug0 (fst (create gs o))).
+    ginv aug0 (fst (create gs o)).
   Proof.
     intros Hinv.
     pose proof (get_first_inv aug0 gs Hinv) as H1.
@@ -228,83 +229,75 @@ Section Build.
     - destruct H1 as [E1 [[A1 I1] C1]]. destruct H2 as [E2 [[A2 I2] C2]].
       rewrite E1 in E2. inversion E2; subst ft'. rewrite A1, A2.
       destruct (existsb _ (s_nts G)).
-      + cbn. split; [reflexivity|]. intros _. split; assumption.
+      + cbn. split; [reflexivity|]. split; assumption.
       + destruct (follow_sets (s_empty G) (s_fuel G) ft (s_nts G) (all_prods G aug0)) as [fo|].
-        * destruct (core _ o ft fo).
-          -- cbn. split; [reflexivity|]. intros _. split; [reflexivity|]. cbn. exact I1.
-          -- cbn. split; [reflexivity|]. intros H. contradiction H. reflexivity.
-        * cbn. split; [reflexivity|]. intros _. split; assumption.
+        * destruct (core _ o ft fo); cbn; (split; [reflexivity|]); (split; [reflexivity|]);
+            cbn; exact I1.
+        * cbn. split; [reflexivity|]. split; assumption.
     - destruct H1 as [E1 _]. rewrite E1 in H2. discriminate.
     - destruct H2 as [E2 _]. rewrite E2 in H1. discriminate.
-    - cbn. split; [reflexivity|]. intros _. exact Hinv.
+    - cbn. split; [reflexivity|]. exact Hinv.
   Qed.
 
-  Lemma create_table_restores gs o :
-    snd (create gs o) <> Raise XInterrupted -> gs_aug (fst (create gs o)) = gs_aug gs.
+  Lemma create_table_restores gs o : gs_aug (fst (create gs o)) = gs_aug gs.
   Proof.
     unfold create_table, get_first.
     destruct (gs_first gs) as [ft|].
     - destruct (existsb _ (s_nts G)); [reflexivity|].
       destruct (follow_sets _ _ _ _ _); [|reflexivity].
-      destruct (core _ _ _ _); cbn; [reflexivity|]. intros H. contradiction H. reflexivity.
+      destruct (core _ _ _ _); reflexivity.
     - destruct (first_sets _ _ _) as [ft|]; [|reflexivity]. cbn [gs_aug gs_first].
       destruct (existsb _ (s_nts G)); [reflexivity|].
       destruct (follow_sets _ _ _ _ _); [|reflexivity].
-      destruct (core _ _ _ _); cbn; [reflexivity|]. intros H. contradiction H. reflexivity.
-  Qed.
-
-  Lemma create_table_interrupted gs o :
-    snd (create gs o) = Raise XInterrupted ->
-    gs_aug (fst (create gs o)) = [NT (prod_lhs G (b_start o) (gs_aug gs)); T (s_stop G)].
-  Proof.
-    unfold create_table, get_first.
-    destruct (gs_first gs) as [ft|].
-    - destruct (existsb _ (s_nts G)); [discriminate|].
-      destruct (follow_sets _ _ _ _ _); [|discriminate].
-      destruct (core _ _ _ _); cbn; [discriminate|reflexivity].
-    - destruct (first_sets _ _ _) as [ft|]; [|discriminate]. cbn [gs_aug gs_first].
-      destruct (existsb _ (s_nts G)); [discriminate|].
-      destruct (follow_sets _ _ _ _ _); [|discriminate].
-      destruct (core _ _ _ _); cbn; [discriminate|reflexivity].
-  Qed.
-
-  Lemma check_parser_not_interrupted glr tb : check_parser sr rr glr tb <> Raise XInterrupted.
-  Proof.
-    unfold check_parser. destruct glr; [discriminate|].
-    destruct (sr tb); [discriminate|]. destruct (rr tb); discriminate.
+      destruct (core _ _ _ _); reflexivity.
   Qed.
 
   Lemma parser_init_inv aug0 gs o : ginv aug0 gs ->
     snd (init gs o) = snd (init (mkG aug0 None) o) /\
-    (snd (init gs o) <> Raise XInterrupted -> ginv aug0 (fst (init gs o))).
+    ginv aug0 (fst (init gs o)).
   Proof.
     intros Hinv. unfold parser_init.
     destruct (s_layout G) as [lp|].
-    - destruct (create_table_inv aug0 gs (mkB lp true true true true) Hinv) as [R1 I1].
-      destruct (create_table_inv aug0 (mkG aug0 None) (mkB lp true true true true) (ginv_fresh aug0)) as [_ I1'].
+    - destruct (create_table_inv aug0 gs (mkB lp true true true true) Hinv) as [R1 J1].
+      destruct (create_table_inv aug0 (mkG aug0 None) (mkB lp true true true true) (ginv_fresh aug0)) as [_ J1'].
       destruct (create gs (mkB lp true true true true)) as [g1 r1].
       destruct (create (mkG aug0 None) (mkB lp true true true true)) as [g1' r1'].
       cbn [fst snd] in *. subst r1'. destruct r1 as [ltb|ex].
-      + assert (J1 : ginv aug0 g1) by (apply I1; discriminate).
-        assert (J1' : ginv aug0 g1') by (apply I1'; discriminate).
-        destruct (check_parser sr rr false ltb) as [t|ex] eqn:Ec.
+      + destruct (check_parser sr rr false ltb) as [t|ex] eqn:Ec.
         * set (ob := mkB 1 (negb (o_slr o)) (o_ps o) (o_pse o) (negb (o_glr o))).
           destruct (create_table_inv aug0 g1 ob J1) as [R2 I2].
           destruct (create_table_inv aug0 g1' ob J1') as [R2' _].
           destruct (create g1 ob) as [g2 r2]. destruct (create g1' ob) as [g2' r2'].
           cbn [fst snd] in *. rewrite <- R2' in R2. subst r2'. destruct r2 as [tb|ex2].
-          -- destruct (check_parser sr rr (o_glr o) tb); cbn; (split; [reflexivity|]);
-               intros _; apply I2; discriminate.
-          -- cbn. split; [reflexivity|]. intros H. apply I2. intros E. apply H. inversion E; reflexivity.
-        * cbn. split; [reflexivity|]. intros _. exact J1.
-      + cbn. split; [reflexivity|]. intros H. apply I1. intros E. apply H. inversion E; reflexivity.
+          -- destruct (check_parser sr rr (o_glr o) tb); cbn; (split; [reflexivity|exact I2]).
+          -- cbn. split; [reflexivity|exact I2].
+        * cbn. split; [reflexivity|exact J1].
+      + cbn. split; [reflexivity|exact J1].
     - set (ob := mkB 1 (negb (o_slr o)) (o_ps o) (o_pse o) (negb (o_glr o))).
       destruct (create_table_inv aug0 gs ob Hinv) as [R2 I2].
       destruct (create gs ob) as [g2 r2]. destruct (create (mkG aug0 None) ob) as [g2' r2'].
       cbn [fst snd] in *. subst r2'. destruct r2 as [tb|ex2].
-      + destruct (check_parser sr rr (o_glr o) tb); cbn; (split; [reflexivity|]);
-          intros _; apply I2; discriminate.
-      + cbn. split; [reflexivity|]. intros H. apply I2. intros E. apply H. inversion E; reflexivity.
+      + destruct (check_parser sr rr (o_glr o) tb); cbn; (split; [reflexivity|exact I2]).
+      + cbn. split; [reflexivity|exact I2].
+  Qed.
+
+  Lemma parser_init_restores gs o : gs_aug (fst (init gs o)) = gs_aug gs.
+  Proof.
+    assert (Hinv : ginv (gs_aug gs) (mkG (gs_aug gs) None)) by apply ginv_fresh.
+    unfold parser_init.
+    destruct (s_layout G) as [lp|].
+    - pose proof (create_table_restores gs (mkB lp true true true true)) as R1.
+      destruct (create gs (mkB lp true true true true)) as [g1 r1]. cbn [fst] in R1.
+      destruct r1 as [ltb|ex]; [|exact R1].
+      destruct (check_parser sr rr false ltb); [|exact R1].
+      set (ob := mkB 1 (negb (o_slr o)) (o_ps o) (o_pse o) (negb (o_glr o))).
+      pose proof (create_table_restores g1 ob) as R2.
+      destruct (create g1 ob) as [g2 r2]. cbn [fst] in R2.
+      destruct r2 as [tb|ex2]; [destruct (check_parser sr rr (o_glr o) tb)|]; cbn; congruence.
+    - set (ob := mkB 1 (negb (o_slr o)) (o_ps o) (o_pse o) (negb (o_glr o))).
+      pose proof (create_table_restores gs ob) as R2.
+      destruct (create gs ob) as [g2 r2]. cbn [fst] in R2.
+      destruct r2 as [tb|ex2]; [destruct (check_parser sr rr (o_glr o) tb)|]; cbn; exact R2.
   Qed.
 End Build.
 
@@ -351,23 +344,18 @@ Section History.
 
   Notation stepw := (step_world G core sr rr sub glr_run).
   Notation runh := (run_history G core sr rr sub glr_run).
-  Notation clean := (history_clean G core sr rr sub glr_run).
 
   Lemma history_ginv aug0 : forall h w,
-    ginv G aug0 (w_g w) -> clean w h = true -> ginv G aug0 (w_g (runh w h)).
+    ginv G aug0 (w_g w) -> ginv G aug0 (w_g (runh w h)).
   Proof.
-    induction h as [|o h IH]; intros w Hinv Hc; [exact Hinv|].
-    cbn [history_clean] in Hc. apply andb_true_iff in Hc. destruct Hc as [Ho Hc].
-    unfold run_history. cbn [fold_left]. apply IH; [|exact Hc].
+    induction h as [|o h IH]; intros w Hinv; [exact Hinv|].
+    unfold run_history. cbn [fold_left]. apply IH.
     destruct o as [inp fuel budget pos|inp|glr slr ps pse]; cbn [step_world w_g]; try exact Hinv.
-    destruct (parser_init_inv G core sr rr aug0 (w_g w) (mkP glr slr ps pse) Hinv) as [_ I].
-    apply I. unfold build_clean in Ho.
-    destruct (snd (parser_init G core sr rr (w_g w) (mkP glr slr ps pse))) as [x|ex]; [discriminate|].
-    destruct ex; try discriminate.
+    apply (proj2 (parser_init_inv G core sr rr aug0 (w_g w) (mkP glr slr ps pse) Hinv)).
   Qed.
 
   Theorem history_probe aug0 w0 h :
-    ginv G aug0 (w_g w0) -> clean w0 h = true ->
+    ginv G aug0 (w_g w0) ->
     let w := runh w0 h in
     gs_aug (w_g w) = aug0 /\
     (forall inp fuel budget pos, probe_lr sub w inp fuel budget pos = probe_lr sub w0 inp fuel budget pos) /\
@@ -375,7 +363,7 @@ Section History.
     (forall o, probe_build G core sr rr w o
                = snd (parser_init G core sr rr (mkG aug0 None) o)).
   Proof.
-    intros Hinv Hc w. pose proof (history_ginv aug0 h w0 Hinv Hc) as Hw. fold w in Hw.
+    intros Hinv w. pose proof (history_ginv aug0 h w0 Hinv) as Hw. fold w in Hw.
     split; [exact (proj1 Hw)|]. split; [|split].
     - intros inp fuel budget pos. apply lr_parse_frame.
     - intros inp. apply glr_parse_frame.
